@@ -14,6 +14,10 @@ os.environ.setdefault("EYECITE_VERIF", "1")  # guard name recorded in MANIFEST.h
 if "/repo" not in sys.path:
     sys.path.insert(0, "/repo")
 
+import logging  # noqa: E402
+
+logging.disable(logging.CRITICAL)  # eyecite logs "Unknown overlap case" warnings; not under test
+
 import eyecite  # noqa: E402
 
 assert os.path.realpath(eyecite.__file__).startswith("/repo/"), eyecite.__file__
